@@ -99,6 +99,13 @@ def probe_ast(cat, ast, sql, deep=True, counterfactual=True):
     for n, _ in all_nodes(ast):
         if isinstance(n, A.Select) and n.cte:
             ctes |= {str(c.name.parts[-1]) for c in n.cte}
+    # table references inside WHERE / targets of a select whose FROM is a derived table (anywhere in the statement)
+    derived_outer = set()
+    for n, _ in all_nodes(ast):
+        if isinstance(n, A.Select) and isinstance(n.from_table, A.Select):
+            for part in (n.where, n.targets):
+                if part is not None:
+                    derived_outer |= {id(i) for i, _ in R.table_refs(part if not isinstance(part, list) else A.Tuple(items=part))}
     refs = []
     for ident, path in R.table_refs(ast):
         parts = [p for p in ident.parts if isinstance(p, str)]
@@ -110,7 +117,10 @@ def probe_ast(cat, ast, sql, deep=True, counterfactual=True):
         elif path and path[-1][0] in ('Insert', 'Update', 'Delete', 'CreateTable') and path[-1][1] in ('table', 'name'):
             kind = 'dml-target'
         db, rest = R.spec_resolve(sp, parts)
-        refs.append(dict(parts=parts, kind=kind, db=db, rest=rest, path=path, tags=classify_ref(sp, ident, path)))
+        tags = classify_ref(sp, ident, path)
+        if id(ident) in derived_outer:
+            tags.append('subquery-of-select-from-derived-table')
+        refs.append(dict(parts=parts, kind=kind, db=db, rest=rest, path=path, tags=tags))
     base = dict(sql=sql, catalog=cat.kwargs())
 
     def fail(cls, desc, **kw):
